@@ -80,6 +80,7 @@ def cacheStep (s : CacheState κ ν) : CacheStep κ → CacheState κ ν
 def CacheInv (s : CacheState κ ν) : Prop :=
   (∀ k v, s.table k = some v → v = f k) ∧ (∀ r ∈ s.returned, r.2.2 = f r.2.1)
 
+/-- one step preserves the invariant (helper of `C14_cache_any_interleaving`) -/
 theorem cacheStep_inv (s : CacheState κ ν) (a : CacheStep κ) (h : CacheInv f s) : CacheInv f (cacheStep f s a) := by
   obtain ⟨h1, h2⟩ := h
   cases a with
@@ -107,7 +108,11 @@ theorem cacheStep_inv (s : CacheState κ ν) (a : CacheStep κ) (h : CacheInv f 
       · exact h2 r hr
   | abort t => exact ⟨h1, h2⟩
 
-/-- **Every interleaving, every history.**  Starting from any cache whose entries are correct (in
+/-- **Every interleaving, every history — of this toy model.**  `CacheStep` / `cacheStep` are defined in this file
+and are not derived from the ANTLR runtime's cache: `publish` stores `f k` by construction, so the invariant holds
+by design; the theorem only records that atomic publication of correct entries cannot be broken by interleaving,
+abort or repetition.  That the real cache publishes atomically and correctly is what the harness probes (threads,
+processes, histories), not what is proved.  Starting from any cache whose entries are correct (in
 particular the empty one, or one left partly filled by earlier — possibly failed — calls), after any
 sequence of atomic steps of any number of threads every entry is still correct and every value ever
 handed to a caller equals `f k`. -/
